@@ -22,7 +22,8 @@ def run(tier):
     rep.coverage["deviation_counterexamples"] = dev
     trace = os.path.join(wd, "trace.ndjson")
     segs, looks = (1500, 8) if big else (150, 6)
-    vlib.run_harness(["c01", "drive", "out=" + trace, "segments=%d" % segs, "lookups=%d" % looks], timeout=3000)
+    frames = os.path.join(wd, "frames.ndjson")
+    vlib.run_harness(["c01", "drive", "out=" + trace, "frames=" + frames, "segments=%d" % segs, "lookups=%d" % looks], timeout=3000)
     res, tr = vlib.validate_trace("Trace_Lookup", "Trace_Lookup.cfg", trace, os.path.join(wd, "out.json"), timeout=3000)
     if res["consumed"] != res["total"]:
         raise vlib.ToolError("trace not fully consumed")
@@ -40,7 +41,10 @@ def run(tier):
         rep.violation(v["clause"], v["site"], v["cond"], {"line": v["line"], "event": recs[v["line"] - 1]})
     rep.coverage["acceptor_mismatches_total"] = res["nviol"]
     if not rep.unknown_violations():
-        selftest(recs, wd)   # binding self-test (skipped when the run already has mismatches to report)
+        selftest(recs, wd)
+    # specification growth hosted here: the wire protocol (every frame the hub saw), informational
+    import growth
+    growth.wire(rep, wd, frames)   # binding self-test (skipped when the run already has mismatches to report)
     return rep.finish(
         rule="clusters of 2..12 real DhtNetworkManagers on the in-memory hub (virtual time), seeded topologies (full mesh, star, line, "
              "random, bridged clusters), unresponsive peers, lying harness endpoints (unknown ids, requester, self, duplicates), delivery "
